@@ -7,7 +7,7 @@ REG = dict(
         "IEEE-754 rounding inside the library's bisection loops is not modelled (the bracket theorems hold for arbitrary "
         "comparison outcomes)",
     ],
-    assumptions=["order-statistic parameters (a,b)=(i,n+1-i), n <= 300 in the quick tier (<= 2000 thorough)",
+    assumptions=["order-statistic parameters (a,b)=(i,n+1-i): a structured set of n <= 300 plus n in {1100,1500,2000} in every tier (exact throughout); thorough adds 40 random n, 500, 1000 and a random n in 1001..2000",
                  "highest-density variants exclude a=b=1; the inverse relation is not demanded at an end point pinned to a "
                  "boundary mode (a=1 lower end, b=1 upper end), where the clause '0 at the mode' applies instead"],
     timeout=dict(quick=600, thorough=7200),
